@@ -167,6 +167,18 @@ func cmdCheck(args []string) int {
 	durations := map[string]int{}
 	maxLoop := 0
 	nviol := 0
+	if *only != "" {
+		matched := false
+		for _, hs := range spec.Harnesses {
+			if strings.Contains(hs.Name, *only) {
+				matched = true
+			}
+		}
+		if !matched {
+			fmt.Printf("INCONCLUSIVE property=%s --only %s matches no harness of this property\n", prop, *only)
+			return 2
+		}
+	}
 	for _, hs := range spec.Harnesses {
 		if *only != "" && !strings.Contains(hs.Name, *only) {
 			continue
